@@ -1,8 +1,10 @@
 package kit
 
 import (
+	"errors"
 	"fmt"
 	"io"
+	"sync"
 	"time"
 
 	"github.com/pion/interceptor"
@@ -46,11 +48,29 @@ type Member struct {
 // PassThroughNames lists the non-buffering interceptors of C01's chains.
 var PassThroughNames = []string{
 	"nack-generator", "nack-generator-limited", "nack-responder", "nack-responder-rtx", "nack-responder-small", "report-receiver", "report-sender", "twcc-sender", "twcc-header-extension",
-	"rfc8888", "rtpfb", "stats", "packetdump-sender", "packetdump-receiver", "packetdump-sender-filtered", "packetdump-receiver-filtered", "intervalpli", "flexfec", "cc-noop-pacer", "noop",
+	"rfc8888", "rtpfb", "stats", "packetdump-sender", "packetdump-receiver", "packetdump-sender-filtered", "packetdump-receiver-filtered", "intervalpli", "flexfec", "cc-noop-pacer", "cc-user-pacer", "noop",
 }
 
 // AllNames adds the buffering / pacing ones.
 var AllNames = append(append([]string{}, PassThroughNames...), "jitterbuffer", "pacing", "cc-leaky-bucket")
+
+// closeFailsOncePacer is a legal gcc.Pacer of the application.
+type closeFailsOncePacer struct {
+	*gcc.NoOpPacer
+	mu     sync.Mutex
+	closes int
+}
+
+func (p *closeFailsOncePacer) Close() error {
+	p.mu.Lock()
+	defer p.mu.Unlock()
+	p.closes++
+	if p.closes == 1 {
+		return errors.New("user pacer: flush failed")
+	}
+
+	return nil
+}
 
 type quietLoggerFactory struct{}
 
@@ -151,12 +171,15 @@ func NewMember(name string, interval time.Duration) Member { //nolint:cyclop
 		m.Factory = must(intervalpli.NewReceiverInterceptor(intervalpli.GeneratorInterval(interval), intervalpli.WithLoggerFactory(lf)))
 	case "flexfec":
 		m.Factory = must(flexfec.NewFecInterceptor(flexfec.NumMediaPackets(4), flexfec.NumFECPackets(2)))
-	case "cc-noop-pacer", "cc-leaky-bucket":
+	case "cc-noop-pacer", "cc-leaky-bucket", "cc-user-pacer":
 		var est cc.BandwidthEstimator
 		f, err := cc.NewInterceptor(func() (cc.BandwidthEstimator, error) {
 			opts := []gcc.Option{gcc.WithLoggerFactory(lf)}
 			if name == "cc-noop-pacer" {
 				opts = append(opts, gcc.SendSideBWEPacer(gcc.NewNoOpPacer()))
+			} else if name == "cc-user-pacer" {
+				// an application's own pacer: forwards at once, and its Close reports an error the first time it is called
+				opts = append(opts, gcc.SendSideBWEPacer(&closeFailsOncePacer{NoOpPacer: gcc.NewNoOpPacer()}))
 			} else {
 				opts = append(opts, gcc.SendSideBWEInitialBitrate(200_000_000), gcc.SendSideBWEMaxBitrate(1_000_000_000))
 			}
